@@ -185,19 +185,21 @@ def cell_to_json(x):
     if isinstance(x, str):
         return x
     if isinstance(x, int):
-        return {"i": x}
+        try:
+            ft = repr(float(x))
+        except OverflowError:
+            ft = "OverflowError"
+        return {"i": x, "if": ft}
     if isinstance(x, float):
         return {"f": float_tok(x)}
     if isinstance(x, datetime.datetime):
         return {"d": x.isoformat()}
-    return {"o": type(x).__name__}
+    return {"o": str(x)}
 
 
 def float_tok(x: float) -> str:
     if x != x:
         return "nan"
-    if x == 0:
-        return "0.0"
     return repr(float(x))
 
 
